@@ -482,7 +482,8 @@ def judge_inputs(prop, inputs, tag):
     obs, valid = run_inputs(pid, inputs, tag=tag)
     dbg('  impl done')
     idx = [i for i in range(len(inputs)) if valid[i] and obs[i] is not None]
-    cases = [[inputs[i], obs[i]] for i in idx]
+    cof = prop.get('case_of') or (lambda i, o: [i, o])
+    cases = [cof(inputs[i], obs[i]) for i in idx]
     res = run_coq_batch(pid, prop['corr'], prop.get('judge', 'judge_all'), cases, tag) if cases else []
     dbg('  coq done')
     verdicts = [None] * len(inputs)
@@ -497,7 +498,8 @@ def model_show(prop, inp, obs):
     if not prop.get('show'):
         return None
     try:
-        r = run_coq_batch(prop['id'], prop['corr'], prop['show'], [[inp, obs]], 'show')
+        cof = prop.get('case_of') or (lambda i, o: [i, o])
+        r = run_coq_batch(prop['id'], prop['corr'], prop['show'], [cof(inp, obs)], 'show')
         return r[0]
     except Exception as e:
         return 'unavailable: %s' % str(e)[-300:]
